@@ -560,7 +560,7 @@ def plan(ctx):
                 shapes = [(1, m, 0.004, 0.0005), (4, m, 0.5, 0.002), (4, m, 0.004, 0.0005), (16, max(40, int(m * 0.3)), 0.8, 0.004), (16, m, 0.05, 0.0005)]
             rounds = [{"K": K, "M": max(40, M), "pace": pace, "pause_s": ps, "p": rng.choice([0.1, 0.25, 0.5]), "seed": rng.randrange(2 ** 31)} for K, M, pace, ps in shapes]
             jobs.append((rep * len(REACTORS) + ri, name, {"rounds": rounds, "idle_reps": IDLE_REPS, "burst_seed": rng.randrange(2 ** 31),
-                                                          "burst_reps": 240 if ctx.quick else 1500, "shutdown_reps": 16 if ctx.quick else 60}))
+                                                          "burst_reps": 240 if ctx.quick else 800, "shutdown_reps": 16 if ctx.quick else 60}))
     return jobs
 
 
